@@ -17,6 +17,23 @@ use std::sync::Arc;
 
 pub struct C16;
 
+// Static part: a `Copy` implementation would let `Cell::clone`, `#[derive(Clone, Copy)]` wrappers and
+// plain assignment duplicate a generator WITHOUT going through `Clone::clone` (the place where the
+// pending half is dropped): such a duplicate is a clone that still holds the original's half.
+// Evaluated with inherent-const shadowing so that the harness compiles whatever the answer is.
+struct CopyProbe<T>(std::marker::PhantomData<T>);
+trait NotCopy {
+    const COPY: bool = false;
+}
+impl<T> NotCopy for CopyProbe<T> {}
+#[allow(dead_code)]
+impl<T: Copy> CopyProbe<T> {
+    const COPY: bool = true;
+}
+fn jitter_is_copy() -> bool {
+    <CopyProbe<rand_jitter::JitterRng<fn() -> u64>>>::COPY
+}
+
 const STUCK_CAP: u64 = 60_000;
 
 struct Side {
@@ -209,6 +226,14 @@ impl Scenario for C16 {
     fn execute(&self, spec: &Spec, st: &mut Stats) -> RunEnd {
         let clock = Arc::new(spec.clock.clone().expect("clock"));
         st.evals += 1;
+        st.count("probe:static_copy_probe");
+        if jitter_is_copy() {
+            return viol(
+                "C16/copy_bypasses_clone",
+                "JitterRng:Copy",
+                "JitterRng<fn() -> u64> is Copy: a duplicate made by copying (Cell::clone, derive(Clone, Copy) wrappers, assignment) does not go through Clone::clone and keeps the half its original still holds".to_string(),
+            );
+        }
         let mut real = Side { g: build_jitter(clock.clone()) };
         let mut twin = Side { g: build_jitter(clock.clone()) };
         let mut tr = Track { pending: None, optional: false, rounds: 64 };
@@ -322,7 +347,7 @@ impl Scenario for C16 {
         }
     }
     fn rule(&self) -> String {
-        "Each run: a JitterRng over a scripted clock (same clock profiles and fault catalogue as C12, including the runs whose first collected value is crafted to have a zero half or to be zero; rounds 1..=255) with a workload biased to next_u32 pairs, next_u32 followed by each other output call, and clone while a half is pending; a twin over the same script is driven in lock-step with fresh-collection calls only. Per call, from the clock's read counter: the second of two consecutive next_u32 reads the timer 0 times and the pair equals the twin's next_u64; every other output call reads at least rounds (x number of 64-bit values) times and equals the twin's value (so a pending half is discarded, never re-served); the first output of a clone (made with clone(), or with clone_from() into a generator that is already in use and holds a pending half) reads its own forked clock at least rounds times and equals the first output of the twin's clone (which never had a half pending); the original still serves its pending half afterwards. fill_bytes(1..=4)/fill_bytes(0) with a half pending: both 'takes the pending half, reads nothing' and 'discards it' are accepted. distinct_nontrivial = distinct (op kind, op applied to clone, half pending, rounds bucket, fill length bucket) signatures.".into()
+        "Each run: a JitterRng over a scripted clock (same clock profiles and fault catalogue as C12, including the runs whose first collected value is crafted to have a zero half or to be zero; rounds 1..=255) with a workload biased to next_u32 pairs, next_u32 followed by each other output call, and clone while a half is pending; a twin over the same script is driven in lock-step with fresh-collection calls only. Per call, from the clock's read counter: the second of two consecutive next_u32 reads the timer 0 times and the pair equals the twin's next_u64; every other output call reads at least rounds (x number of 64-bit values) times and equals the twin's value (so a pending half is discarded, never re-served); the first output of a clone (made with clone(), or with clone_from() into a generator that is already in use and holds a pending half) reads its own forked clock at least rounds times and equals the first output of the twin's clone (which never had a half pending); the original still serves its pending half afterwards. fill_bytes(1..=4)/fill_bytes(0) with a half pending: both 'takes the pending half, reads nothing' and 'discards it' are accepted. Static part: JitterRng over a Copy timer must not itself be Copy (a copy is a clone made without Clone::clone). distinct_nontrivial = distinct (op kind, op applied to clone, half pending, rounds bucket, fill length bucket) signatures.".into()
     }
     fn assumptions(&self) -> Vec<String> {
         vec![
